@@ -80,7 +80,8 @@ def decorate(rng, doc, draft):
             elif k == "contentSchema":
                 v = rng.choice([True, False, Obj([("type", "string")]), Obj([("not", Obj())])])
             elif k == "defs":
-                k = "$defs" if draft == "2020" else "definitions"
+                # both spellings are non-asserting containers in both drafts
+                k = ("$defs" if draft == "2020" else "definitions") if rng.random() < 0.6 else ("definitions" if draft == "2020" else "$defs")
                 if o.get(k) is not None:
                     continue
                 v = Obj([("unused%d" % rng.randint(0, 9), rng.choice([False, Obj([("type", "null")]), Obj([("not", Obj())])]))])
@@ -92,6 +93,30 @@ def decorate(rng, doc, draft):
             k = rng.choice(UNKNOWN)
             if o.get(k) is None:
                 o.set(k, gs.gen_value(rng, 2))
+        elif r < 0.98 and o.kvs:
+            # a case variant of a keyword that is present in the same object, before or after it (encoding/json matches field names
+            # case-insensitively and the last match wins): the exact keyword must keep its meaning
+            k0, v0 = rng.choice(o.kvs)
+            if not k0.isalpha() or k0 in ("title", "description", "format") or any(kk.lower() == k0.lower() and kk != k0 for kk in o.keys()):
+                continue
+            kv = rng.choice([k0.capitalize(), k0.upper(), k0[0] + k0[1:].swapcase()])
+            if kv == k0:
+                continue
+            if isinstance(v0, Num):
+                v = Num(rng.choice(["0", "1", "5", "100", "-1"]))
+            elif isinstance(v0, bool):
+                v = not v0
+            elif isinstance(v0, str):
+                v = rng.choice(gs.TYPES)
+            elif isinstance(v0, list) and all(isinstance(x, str) for x in v0):
+                v = ["zz"]
+            else:
+                v = v0
+            if rng.random() < 0.6:
+                o.kvs.insert(0, (kv, v))       # the variant comes first in the document
+            else:
+                o.kvs.append((kv, v))
+            folded = True
         else:
             k = rng.choice(CASEFOLD)
             if o.get(k) is None:
@@ -101,6 +126,13 @@ def decorate(rng, doc, draft):
                 o.set(k, v if rng.random() < 0.7 else gs.gen_value(rng, 1))
                 folded = True
     return d, folded
+
+
+def has_both_defs(doc):
+    """some schema object of the document holds both `$defs` and `definitions` (Resolve refuses it: known finding D22)"""
+    pos = []
+    positions(doc, pos)
+    return any(o.get("$defs") is not None and o.get("definitions") is not None for o in pos)
 
 
 def gen(rng, tier, n):
@@ -138,13 +170,23 @@ def judge(o, go, m):
     mo = m["model"]
     ga, gb = go.get("a") or {}, go.get("b") or {}
     H = (mo.get("b") or {}).get("H") or []
+    # correspondence with the model on both documents first: the model reproduces encoding/json's case-insensitive field matching, so a
+    # disagreement is a violation also on documents with a case-folding key (known finding D4 is what the model predicts, nothing else)
+    for side in ("a", "b"):
+        st, d = vjudge.judge_validate({"meta": {}}, go.get(side), mo.get(side), compare_targets=False)
+        if st.startswith("violation"):
+            return st, side + ": " + d
+    if has_both_defs(o["args"]["schema2"]) and not has_both_defs(o["args"]["schema"]):
+        H = H + ["D22"]
     # the property itself, on the real package
     if gb.get("outcome") == "unmarshal-error" and ga.get("outcome") != "unmarshal-error":
         if H:
             return "known:" + H[0], "decorated document refused by Unmarshal (outside hypothesis %s)" % H
         return "violation", "Unmarshal refuses the decorated document: %s" % str(gb.get("detail"))[:200]
     if (ga.get("outcome"), ga.get("verdicts")) != (gb.get("outcome"), gb.get("verdicts")):
-        if H:
+        if "D22" in H and gb.get("outcome") == "resolve-error":
+            return "known:D22", "an object with both $defs and definitions is refused by Resolve"
+        if H and H != ["D22"]:
             return "known:" + H[0], "verdicts change under a decoration whose key case-folds onto a keyword"
         return "violation", "decoration changes the result: undecorated %r / %r, decorated %r / %r" % (
             ga.get("outcome"), ga.get("verdicts"), gb.get("outcome"), gb.get("verdicts"))
